@@ -79,6 +79,16 @@ fn literal_inputs() -> Vec<String> {
         v.push(format!("MATCH (a)-[*{lit}]->(b) RETURN a"));
         v.push(format!("MATCH (a)-[*1..{lit}]->(b) RETURN a"));
     }
+    // range() over every combination of boundary bounds and steps
+    let bounds = ["-9223372036854775808", "-9223372036854775807", "-1", "0", "1", "9223372036854775806", "9223372036854775807"];
+    let steps = ["-1", "1", "-2", "2", "-9223372036854775808", "9223372036854775807", "-9223372036854775807"];
+    for a in bounds {
+        for b in bounds {
+            for st in steps {
+                v.push(format!("RETURN size(range({a}, {b}, {st})) AS x"));
+            }
+        }
+    }
     v.push(format!("RETURN {} AS x", "9".repeat(400)));
     v.push(format!("RETURN 0.{} AS x", "9".repeat(400)));
     v.push(format!("RETURN '{}' AS x", "a".repeat(100_000)));
